@@ -59,18 +59,23 @@ def validate(d: Path) -> dict:
 
 
 def run(d: Path, tier: str = "quick") -> bool:
+    """Run the property's check against the change. The patch is applied in a throw-away worktree of /repo HEAD
+    (SPOX_REPO points the framework at it), so /repo itself and anything else running against it are not disturbed;
+    equivalent to `git -C /repo apply`, run, `git -C /repo checkout -- .`."""
     meta = json.loads((d / "meta.json").read_text())
     pid = meta["property"]
-    st = sh("git status --porcelain", cwd=REPO).stdout.strip()
-    assert not st, f"/repo not clean: {st}"
-    r = sh(f"git apply {d / 'patch.diff'}", cwd=REPO)
-    assert r.returncode == 0, r.stderr
+    wt = Path(tempfile.mkdtemp(prefix="seedrun-", dir="/tmp"))
+    wt.rmdir()
+    r0 = sh(f"git -C {REPO} worktree add -q --detach {wt} HEAD")
+    assert r0.returncode == 0, r0.stderr
     ev = V / "evidence" / f"{pid}.json"
     ev_saved = ev.read_text() if ev.exists() else None  # evidence committed must come from clean-tree runs
     try:
-        r = sh(f"./check {pid} {tier}", cwd=V, env={"VERIF_SEED": os.environ.get("VERIF_SEED", "0")})
+        r = sh(f"git apply {d / 'patch.diff'}", cwd=wt)
+        assert r.returncode == 0, r.stderr
+        r = sh(f"./check {pid} {tier}", cwd=V, env={"VERIF_SEED": os.environ.get("VERIF_SEED", "0"), "SPOX_REPO": str(wt)})
     finally:
-        sh("git checkout -- . && git clean -fdq src tests tools", cwd=REPO)
+        sh(f"git -C {REPO} worktree remove --force {wt}")
         if ev_saved is not None:
             ev.write_text(ev_saved)
         # generated Lean files were rewritten from the mutant: regenerate from the clean tree
